@@ -202,7 +202,7 @@ func IsStartWithDirective(b bytes.Bytes) bool {
 
 	switch b.FirstByte() { // response directive 100, 200, 300 etc
 	case '1', '2', '3', '4', '5':
-		if IsHTTPResponseCode(b.Sub(0, 3).String()) {
+		if IsHTTPResponseCode(b.Sub(0, 3).String()) && isKeywordEnd(b, 3) {
 			return true
 		}
 	}
@@ -214,10 +214,23 @@ func IsStartWithDirective(b bytes.Bytes) bool {
 		if de == HTTPResponseCode {
 			continue
 		}
-		if strings.HasPrefix(s, de.String()) {
+		if strings.HasPrefix(s, de.String()) && isKeywordEnd(b, len(de.String())) {
 			return true
 		}
 	}
 
+	return false
+}
+
+// isKeywordEnd reports whether a keyword may end before the i-th byte of the
+// line: there the line ends, or a blank, a comment or an annotation follows.
+func isKeywordEnd(b bytes.Bytes, i int) bool {
+	if b.Len() <= i {
+		return true
+	}
+	switch b.Sub(i, i+1).FirstByte() {
+	case ' ', '\t', '\r', '\n', '#', '/':
+		return true
+	}
 	return false
 }
